@@ -1,5 +1,6 @@
 (** C05 — expressions evaluate with conventional, self-consistent semantics. *)
-From Coq Require Import List ZArith NArith Lia Bool.
+From Coq Require Import List ZArith NArith Lia Bool Reals Floats.SpecFloat.
+From Flocq Require Import Core IEEE754.BinarySingleNaN.
 From AG Require Import Str F64 Value Json Expr Ops Pipeline F64_proofs F64_exact_proofs Value_proofs Expr_proofs Grammar Print Roundtrip_proofs.
 Import ListNotations.
 Open Scope Z_scope.
@@ -69,14 +70,19 @@ Proof.
 Qed.
 Print Assumptions C05_equality.
 
-(** numeric between numbers, lexicographic between strings, one fixed type order otherwise *)
+(** numeric between numbers (an integer is compared with a double exactly: with the real
+    number the double denotes, for every integer and every finite well-formed double),
+    lexicographic between strings, one fixed type order otherwise *)
 Theorem C05_order_by_kind : forall x y s t a b,
   vcmp (VInt x) (VInt y) = Z.compare x y /\
-  (Z.abs x <= 2 ^ 53 -> Z.abs y <= 2 ^ 53 -> vcmp (VInt x) (VFloat (f_of_Z y)) = Z.compare x y) /\
+  (Z.abs y <= 2 ^ 53 -> vcmp (VInt x) (VFloat (f_of_Z y)) = Z.compare x y) /\
+  (forall f, valid_binary F64.prec F64.emax f = true -> f_is_finite f = true ->
+     vcmp (VInt x) (VFloat f) = Rcompare (IZR x) (SF2R radix2 f)) /\
   vcmp (VStr s) (VStr t) = str_cmp s t /\
   ((rank a < rank b)%N -> vcmp a b = Lt).
 Proof.
   intros. split; [apply vcmp_int_int|]. split; [apply vcmp_int_float_small|].
+  split; [apply vcmp_int_float_exact|].
   split; [apply vcmp_str | apply vcmp_rank].
 Qed.
 Print Assumptions C05_order_by_kind.
